@@ -542,6 +542,9 @@ func Run(c Case, h Hooks) Result {
 				}
 			}
 			for s := 0; s < c.N; s++ {
+				if neverUp(c, s) {
+					continue // nothing to probe: the server is down for the whole case
+				}
 				// A probe that is concurrent with the asynchronous tear-down of a
 				// stream (caused by an earlier cancelled send) may legitimately fail
 				// with "unavailable"; the node is unusable only if it stays that way.
@@ -592,6 +595,25 @@ func Run(c Case, h Hooks) Result {
 	return res
 }
 
+// neverUp reports whether server s is down at creation and never started by the program.
+func neverUp(c Case, s int) bool {
+	down := false
+	for _, d := range c.Down {
+		if d == s {
+			down = true
+		}
+	}
+	if !down {
+		return false
+	}
+	for _, op := range c.Ops {
+		if op.Kind == "start" && op.Call.Node == s {
+			return false
+		}
+	}
+	return true
+}
+
 // issueBounded issues the call; the stub of a one-way or synchronous call may
 // block (that is what some properties look for), so the thread only waits a
 // bounded time for it and then moves on (the call is reported as hung later).
@@ -608,6 +630,8 @@ func issueBounded(call *scen.Call) {
 // the per-node sender / receiver / send watcher / reconnect, per-call
 // async and correctable handlers, and grpc's client-side transport goroutines.
 // Server-side goroutines and harness goroutines yield "".
+func ClientGoroutine(g scen.Goroutine) string { return clientGoroutine(g) }
+
 func clientGoroutine(g scen.Goroutine) string {
 	lf := g.LibFrame()
 	switch {
